@@ -156,7 +156,15 @@ def r05c(run):
 def r05d(run):
     f = run.repo.func("utype.parser.base", "BaseParser.parse_addition")
     fa = analysis(f)
+    # the policy expression is found by role: the operand of the `... is False` test that reads `.addition`
     A = "context.options.addition"
+    for n in fa.cfg.nodes:
+        if n.kind == "test":
+            for a, p in fa.facts.atoms_at(n) + [(n.ast, True)]:
+                if isinstance(a, ast.Compare) and len(a.ops) == 1 and isinstance(a.ops[0], ast.Is) \
+                        and isinstance(a.comparators[0], ast.Constant) and a.comparators[0].value is False \
+                        and opt_attr(a.left) == "addition":
+                    A = unparse(a.left)
     exceed = [n for n, c in fa.all_calls() if is_handle_error_call(c) and c.args
               and exc_class_of_ctor(c.args[0]) == "ExceedError"]
     run.check("R05d", f, "addition=False reports an ExceedError", len(exceed) == 1 and fa.cfg.is_live(exceed[0]),
